@@ -80,8 +80,151 @@ func parseRat(s string) (*big.Rat, bool) {
 	return r, true
 }
 
+// tryPanicReplay: a refuted safety obligation of a receiver-less function whose parameters are scalars or
+// strings. The model's arguments (strings rebuilt byte by byte from gs.len / gs.at) are passed to the real
+// function inside a recover(); the replay is confirmed when the real function panics.
+func tryPanicReplay(P *Program, vc *VC, r *Result, rf *ReplayFile) bool {
+	fn, _ := findFuncByReportName(P, vc.fnName)
+	if fn == nil || fn.Signature.Recv() != nil {
+		rf.ReplayNote += " safety replay needs a function without receiver;"
+		return false
+	}
+	for _, p := range fn.Params {
+		if scalarKind(p.Type()) == "" && !isStringType(p.Type()) {
+			rf.ReplayNote += " non-scalar parameter " + p.Name() + ";"
+			return false
+		}
+	}
+	data, err := os.ReadFile(r.File)
+	if err != nil {
+		return false
+	}
+	base := strings.Replace(string(data), "(check-sat)", "", 1)
+	qf := strings.TrimSuffix(r.File, ".smt2") + ".val.smt2"
+	var names []string
+	for _, p := range fn.Params {
+		n := "p." + sanitize(p.Name())
+		if isStringType(p.Type()) {
+			names = append(names, "(gs.len "+n+")")
+			for i := 0; i < 24; i++ {
+				names = append(names, fmt.Sprintf("(gs.at %s %d)", n, i))
+			}
+		} else {
+			names = append(names, n)
+		}
+	}
+	var out string
+	for _, bound := range []string{"16", "1000", "1000000000", ""} {
+		q := base
+		for _, p := range fn.Params {
+			n := "p." + sanitize(p.Name())
+			if isStringType(p.Type()) {
+				q += fmt.Sprintf("(assert (<= (gs.len %s) 24))\n", n)
+			} else if k := scalarKind(p.Type()); bound != "" && (k == "int" || k == "time") {
+				q += fmt.Sprintf("(assert (and (<= (- %s) %s) (<= %s %s)))\n", bound, n, n, bound)
+			}
+		}
+		q += "(check-sat)\n(get-value (" + strings.Join(names, " ") + "))\n"
+		os.WriteFile(qf, []byte(q), 0o644)
+		for _, sp := range solvers {
+			st, o := runSolver(context.Background(), sp, qf, 10000, true)
+			if st == "sat" {
+				out = o
+				break
+			}
+		}
+		if out != "" {
+			break
+		}
+	}
+	if out == "" {
+		rf.ReplayNote += " no small model found for the safety obligation;"
+		return false
+	}
+	termVal := regexp.MustCompile(`\(\s*(\(gs\.(?:len|at) [^()]+\)|[A-Za-z_.!$0-9]+)\s+(\(- [0-9.]+\)|[0-9.]+|true|false)\s*\)`)
+	vals := map[string]string{}
+	for _, m := range termVal.FindAllStringSubmatch(out, -1) {
+		vals[m[1]] = m[2]
+	}
+	rf.ReplayInput = map[string]string{}
+	var goArgs []string
+	for _, p := range fn.Params {
+		n := "p." + sanitize(p.Name())
+		if isStringType(p.Type()) {
+			lr, ok := parseRat(vals["(gs.len "+n+")"])
+			if !ok || !lr.IsInt() || lr.Sign() < 0 {
+				return false
+			}
+			ln := int(lr.Num().Int64())
+			var bs []string
+			for i := 0; i < ln && i < 24; i++ {
+				br, ok := parseRat(vals[fmt.Sprintf("(gs.at %s %d)", n, i)])
+				b := int64(0)
+				if ok && br.IsInt() {
+					b = br.Num().Int64()
+				}
+				bs = append(bs, fmt.Sprintf("%d", ((b%256)+256)%256))
+			}
+			lit := "string([]byte{" + strings.Join(bs, ", ") + "})"
+			goArgs = append(goArgs, lit)
+			rf.ReplayInput[p.Name()] = lit
+			continue
+		}
+		v, ok := vals[n]
+		if !ok {
+			return false
+		}
+		rf.ReplayInput[p.Name()] = v
+		rat, ok := parseRat(v)
+		switch scalarKind(p.Type()) {
+		case "bool":
+			goArgs = append(goArgs, v)
+		case "int":
+			if !ok || !rat.IsInt() || !rat.Num().IsInt64() {
+				return false
+			}
+			goArgs = append(goArgs, fmt.Sprintf("%s(%d)", types.TypeString(p.Type(), func(pk *types.Package) string {
+				if pk == fn.Pkg.Pkg {
+					return ""
+				}
+				return pk.Name()
+			}), rat.Num().Int64()))
+		case "float":
+			if !ok {
+				return false
+			}
+			f, _ := rat.Float64()
+			goArgs = append(goArgs, fmt.Sprintf("float64(%v)", f))
+		default:
+			return false
+		}
+	}
+	var src strings.Builder
+	fmt.Fprintf(&src, "package %s\n\nimport (\n\t\"fmt\"\n\t\"testing\"\n)\n\n// generated by govc: replay of %s\nfunc TestGovcReplay(t *testing.T) {\n\tdefer func() {\n\t\tif e := recover(); e != nil {\n\t\t\tfmt.Printf(\"GOVC-PANIC %%v\\n\", e)\n\t\t}\n\t}()\n\t%s(%s)\n\tfmt.Println(\"GOVC-NO-PANIC\")\n}\n", fn.Pkg.Pkg.Name(), r.Obl.Name, fn.Name(), strings.Join(goArgs, ", "))
+	dir := filepath.Join(verifRoot, "out", "replay", rf.Property)
+	os.MkdirAll(dir, 0o755)
+	testFile := filepath.Join(dir, sanitizeFile(r.Obl.Name)+"_test.go")
+	os.WriteFile(testFile, []byte(src.String()), 0o644)
+	rf.ReplayTest = testFile
+	_, outRun := runReplayTest(testFile, vc.fnName)
+	if m := regexp.MustCompile(`GOVC-PANIC (.*)`).FindStringSubmatch(outRun); m != nil {
+		rf.ReplayNote += " the real function panics on the model's input: " + m[1] + ";"
+		return true
+	}
+	rf.ReplayNote += " the real function did not panic on the model's input (the model lives in an abstraction): " + firstLines(outRun, 3) + ";"
+	return false
+}
+
+func isStringType(t types.Type) bool {
+	b, ok := t.Underlying().(*types.Basic)
+	return ok && b.Info()&types.IsString != 0
+}
+
 func tryScalarReplay(P *Program, vc *VC, r *Result, rf *ReplayFile) bool {
 	fn, con := findFuncByReportName(P, vc.fnName)
+	if fn != nil && r.Obl.Kind == "safe" {
+		return tryPanicReplay(P, vc, r, rf)
+	}
 	if fn == nil || r.Obl.Kind != "post" {
 		rf.ReplayNote += " replay supports only postconditions of scalar functions;"
 		return false
